@@ -413,7 +413,18 @@ func zzC05Families(sys *zzC05Sys) (fams map[string]func(rng *rand.Rand, i int)) 
 			ids := []string{fmt.Sprintf("127.0.7.%d", 1+i%3), fmt.Sprintf("cid%d", i%3)}
 			cl := m{"name": name, "ids": ids, "use_global_settings": i%2 == 0, "filtering_enabled": i%3 != 0,
 				"use_global_blocked_services": i%2 == 1, "blocked_services": []string{"youtube"},
-				"tags": []string{}, "upstreams": []string{}}
+				"tags": []string{}, "upstreams": []string{}, "ignore_querylog": i%4 == 1, "ignore_statistics": i%4 == 2,
+				"safe_search": m{"enabled": i%3 == 1, "google": true}}
+			switch i % 4 {
+			case 1:
+				cl["blocked_services_schedule"] = nil
+			case 2:
+				cl["blocked_services_schedule"] = m{"time_zone": "UTC", "mon": m{"start": 0, "end": 86400000}}
+			case 3:
+				cl["upstreams"] = []string{sys.upAddr}
+				cl["upstreams_cache_enabled"] = true
+				cl["upstreams_cache_size"] = 4096
+			}
 			switch rng.Intn(3) {
 			case 0:
 				zzC05API(post, "/control/clients/add", cl)
@@ -425,11 +436,27 @@ func zzC05Families(sys *zzC05Sys) (fams map[string]func(rng *rand.Rand, i int)) 
 			}
 		},
 		"Access": func(rng *rand.Rand, i int) {
-			zzC05API(post, "/control/access/set", m{
-				"allowed_clients":    []string{},
-				"disallowed_clients": []string{fmt.Sprintf("10.8.%d.0/24", i%5), "cid-blocked"},
-				"blocked_hosts":      []string{fmt.Sprintf("access-blocked-%d.example", i%2), "||access-rule.example^"},
-			})
+			// Payload variants: all lists change / only the blocked hosts
+			// change / only the client lists change / allow-list mode that
+			// still admits the harness's own source addresses / empty lists.
+			dis := []string{fmt.Sprintf("10.8.%d.0/24", (i/4)%5), "cid-blocked"}
+			hosts := []string{fmt.Sprintf("access-blocked-%d.example", i%2), "||access-rule.example^"}
+			allowed := []string{}
+			switch i % 6 {
+			case 1:
+				// Only the blocked hosts differ from the previous post.
+				dis = []string{fmt.Sprintf("10.8.%d.0/24", ((i-1)/4)%5), "cid-blocked"}
+			case 2:
+				hosts = []string{fmt.Sprintf("access-blocked-%d.example", (i-1)%2), "||access-rule.example^"}
+			case 3:
+				allowed = []string{"127.0.0.0/8", "cid-allowed"}
+			case 4:
+				dis, hosts = []string{}, []string{}
+			case 5:
+				hosts = append(hosts, "||*^$dnstype=HTTPS")
+			}
+
+			zzC05API(post, "/control/access/set", m{"allowed_clients": allowed, "disallowed_clients": dis, "blocked_hosts": hosts})
 		},
 		"UserRules": func(rng *rand.Rand, i int) {
 			rules := []string{"||custom-blocked.example^"}
@@ -473,13 +500,38 @@ func zzC05Families(sys *zzC05Sys) (fams map[string]func(rng *rand.Rand, i int)) 
 				ids = []string{"youtube", "facebook"}
 			}
 
-			zzC05API(put, "/control/blocked_services/update", m{"ids": ids, "schedule": m{"time_zone": "UTC"}})
+			// Schedule variants: empty in a zone, omitted, explicit null, a
+			// range that covers the whole of every day, a far-away zone.
+			body := m{"ids": ids}
+			switch i % 5 {
+			case 0:
+				body["schedule"] = m{"time_zone": "UTC"}
+			case 1:
+				// Omitted.
+			case 2:
+				body["schedule"] = nil
+			case 3:
+				day := m{"start": 0, "end": 86400000}
+				body["schedule"] = m{"time_zone": "Europe/Berlin", "sun": day, "mon": day, "tue": day, "wed": day, "thu": day, "fri": day, "sat": day}
+			default:
+				body["schedule"] = m{"time_zone": "Pacific/Kiritimati", "mon": m{"start": 60000, "end": 120000}}
+			}
+
+			zzC05API(put, "/control/blocked_services/update", body)
 		},
 		"Protection": func(rng *rand.Rand, i int) {
-			if i%2 == 0 {
+			switch i % 4 {
+			case 0:
 				zzC05API(post, "/control/protection", m{"enabled": false, "duration": 15})
-			} else {
+			case 1:
 				zzC05API(post, "/control/protection", m{"enabled": true})
+			case 2:
+				zzC05API(post, "/control/protection", m{"enabled": false, "duration": 1})
+			default:
+				// Let a pause expire while queries are served: the re-enable
+				// worker runs on its own goroutine.
+				time.Sleep(25 * time.Millisecond)
+				zzC05API(http.MethodGet, "/control/status", nil)
 			}
 		},
 		"SafeSearch": func(rng *rand.Rand, i int) {
